@@ -356,6 +356,15 @@ def ends_with_shape(strcc):
     raise ValueError("StrEndsWith: comparison shape not recognised (must be a compare of the last |suffix| characters)")
 
 
+def read_pcd_shape(rf):
+    """ReadPcd must have the modelled shape: three `in.get( c )`, nothing read after the closing backslash"""
+    b = _ws(_strip(_body(rf, r"Severity\s+ReadPcd\s*\(", "ReadPcd")))
+    want = ("charc;in.get(c);if(c=='\\\\'){in.get(c);if(c=='F'||c=='N'){in.get(c);if(c=='\\\\'){returnSEVERITY_NULL;}}}")
+    if not b.startswith(want):
+        raise ValueError("ReadPcd: shape not modelled (the model reads exactly three characters `\\F\\` / `\\N\\`)")
+    return True
+
+
 def skip_comments(rf):
     """does SkipInstance have the `case '/':` that steps over a comment (peek '*', putback, ReadComment; else keep the '/')?"""
     b = _ws(_strip(_body(rf, r"Severity\s+SkipInstance\s*\(", "SkipInstance")))
@@ -591,6 +600,7 @@ def extract(repo):
     sch_cap = schformat(rd("src/clstepcore/Registry.cc"), env)
     nms_exact = nms_copy_exact(sc)
     skipcm = skip_comments(rf)
+    read_pcd_shape(rf)
     ews = ends_with_shape(strcc)
     mcl, rc_iters = read_comment(rf, rh, env)
     mec = max_errors(inl, sf)
